@@ -379,7 +379,7 @@ def isGraph (h : Heap) (c : Ref) : Bool :=
   | some (.graph ..) => true
   | _ => false
 
-/-- `add_nodes(*nodes)`: returns `self` when called with no nodes; otherwise `Graph(all_nodes)`
+/-- `add_nodes(*nodes)`: a `_shallow_copy` when called with no nodes; otherwise `Graph(all_nodes)`
 (`__init__`: `_bound = {}`, no selection, no entry points, empty caches), and replays the bindings
 (`new_graph.inputs` is read for validation, `_bound = dict(self._bound)`, inputs cache popped) and
 the selection (`new_graph.select(..)` → a further `_shallow_copy`).  Entry points are NOT replayed.
@@ -390,7 +390,7 @@ performs these nested fills before allocating the new graph (same final heap). -
 def addNodes (h : Heap) (g : Ref) (ns : List Ref) : Heap × Ref :=
   match h.objs[g]? with
   | some (.graph nodes b sel _ _ _) =>
-    if ns = [] then (h, g) else
+    if ns = [] then shallowCopy h g else
     let all := nodes ++ ns.filter (isNode h)
     let replayBound := !(dictAt h b).isEmpty                         -- `if self._bound:`
     let h0 := if replayBound then readNested readInputsH h.objs.length h all else h
@@ -601,11 +601,9 @@ def isGraphNode (h : Heap) (c : Ref) : Bool :=
   | some (.node _ _ _ _ _ _ (some _) _) => true
   | _ => false
 
-/-- the operation is a derivation (not a cache read) applied to a receiver of the right kind with
-a non-trivial argument (`add_nodes()` with no nodes returns `self`) -/
+/-- the operation is a derivation (not a cache read) applied to a receiver of the right kind -/
 def Op.derives (h : Heap) : Op → Bool
-  | .bind g _ | .unbind g _ | .select g _ | .withEntrypoint g _ | .asNode g _ => isGraph h g
-  | .addNodes g ns => isGraph h g && !ns.isEmpty
+  | .bind g _ | .unbind g _ | .select g _ | .withEntrypoint g _ | .asNode g _ | .addNodes g _ => isGraph h g
   | .withName n _ | .withInputs n _ | .withOutputs n _ => isNode h n
   | .mapOver n _ _ => isGraphNode h n
   | .readInputs _ | .readHash _ | .readDefaults _ => false
@@ -630,6 +628,7 @@ inductive OpSpec
   /-- extras (not required by the driver protocol) -/
   | readHash (i : Nat)
   | addNode (i : Nat) (j : Nat)       -- `results[i].add_nodes(results[j])`
+  | addNone (i : Nat)                 -- `results[i].add_nodes()`
   deriving DecidableEq, Repr, Inhabited
 
 /-- allocate one initial function node: its (empty) history list, then the node -/
@@ -661,6 +660,7 @@ def OpSpec.toOp (res : List Ref) : OpSpec → Op
   | .readInputs i => .readInputs (res.getD i 0)
   | .readHash i => .readHash (res.getD i 0)
   | .addNode i j => .addNodes (res.getD i 0) [res.getD j 0]
+  | .addNone i => .addNodes (res.getD i 0) []
 
 def replayFrom (h : Heap) (res : List Ref) : List OpSpec → List (List Obs)
   | [] => []
